@@ -81,6 +81,13 @@ func traceMain(args []string) {
 		in := newInst(c.backend)
 		fmt.Fprintf(w, "CASE %s %s\n", c.id, c.backend)
 		for _, s := range c.steps {
+			if s.X == "IT" {
+				iterate(w, in, s, !*nodump)
+				if in.dead {
+					break
+				}
+				continue
+			}
 			if s.X != "" {
 				t0, t1, r := in.xop(s.X, s.Xarg)
 				fmt.Fprintf(w, "%s %d %d => %s\n", stepLine(s), t0, t1, r)
@@ -102,4 +109,97 @@ func traceMain(args []string) {
 		fmt.Fprintln(w, "END")
 		in.destroy()
 	}
+}
+
+// iterate: one cursor-following loop.  Every call (and every churn command between two calls)
+// is written as an ordinary OP step, bracketed by X ITBEGIN / X ITEND <status>:<calls>.
+func iterate(w *bufio.Writer, in *inst, s step, dump bool) {
+	mark := func(op, arg string) {
+		t := nowMs()
+		fmt.Fprintf(w, "X %s %s %d %d => ok\n", op, arg, t, t)
+		if dump {
+			in.dump(w)
+		}
+	}
+	run := func(name string, toks []string) string {
+		bargs := make([][]byte, len(toks))
+		for i, a := range toks {
+			bargs[i] = parseTok(a)
+		}
+		t0, t1, r := in.exec(s.Conn, name, bargs)
+		fmt.Fprintf(w, "%s %d %d => %s\n", stepLine(step{Conn: s.Conn, Name: name, Args: toks}), t0, t1, r)
+		if dump {
+			in.dump(w)
+		}
+		return r
+	}
+	mark("ITBEGIN", "-")
+	cursor := "0"
+	calls := 0
+	status := "done"
+	for {
+		toks := make([]string, len(s.Args))
+		for i, a := range s.Args {
+			if a == "@C" {
+				toks[i] = lit(cursor)
+			} else {
+				toks[i] = a
+			}
+		}
+		r := run(s.Name, toks)
+		calls++
+		f := strings.Fields(r)
+		if in.dead || len(f) < 3 || f[0] != "A2" || !strings.HasPrefix(f[1], "B") || !strings.HasPrefix(f[2], "A") {
+			status = "error"
+			break
+		}
+		cursor = string(parseTok(f[1][1:]))
+		if cursor == "0" {
+			break
+		}
+		if calls >= s.Max {
+			status = "limit"
+			break
+		}
+		if s.Chrn {
+			// elements outside the tracked set: added before one call, removed before the next
+			key := ""
+			if len(s.Args) > 0 && s.Args[0] != "@C" {
+				key = s.Args[0]
+			}
+			el := lit(fmt.Sprintf("churn:%d", (calls-1)/2))
+			add := calls%2 == 1
+			switch strings.ToUpper(s.Name) {
+			case "SCAN":
+				if add {
+					run("SET", []string{el, lit("x")})
+				} else {
+					run("DEL", []string{el})
+				}
+			case "SSCAN":
+				if add {
+					run("SADD", []string{key, el})
+				} else {
+					run("SREM", []string{key, el})
+				}
+			case "HSCAN":
+				if add {
+					run("HSET", []string{key, el, lit("x")})
+				} else {
+					run("HDEL", []string{key, el})
+				}
+			case "ZSCAN":
+				if add {
+					run("ZADD", []string{key, lit("0"), el})
+				} else {
+					run("ZREM", []string{key, el})
+				}
+			}
+			if in.dead {
+				status = "error"
+				break
+			}
+		}
+	}
+	mark("ITEND", fmt.Sprintf("%s:%d", status, calls))
 }
